@@ -19,7 +19,7 @@ ASSUMPTIONS = ["saved-channel subsets are prefixes of the 384 acquired channels 
                "NPultra has no geometry-map reference in the fixtures: shank-map encoding only",
                "mux tables: NP1/NPultra 32 ADCs x 12 channels over 13 slots, NP2 24 ADCs x 16 channels over 16 slots (SpikeGLX muxTbl)"]
 REQUIRED = {"geometries_checked": 40, "joint_permutation_checked": 40, "encodings_compared": 10, "split_checked": 4, "grid_points": 1000,
-            "adc_checked": 40, "cached_tag_variants": 200, "lf_band_geometries": 20, "split_reader_geometries": 8, "reader_lifetime_geometries": 30}
+            "adc_checked": 40, "cached_tag_variants": 200, "lf_band_geometries": 20, "split_reader_geometries": 8, "split_of_subset_parents": 3, "reader_lifetime_geometries": 30}
 CASE_TIMEOUT = 60.0
 KEYS = [("x", "x"), ("y", "y"), ("shank", "shank"), ("row", "row"), ("col", "col_out"), ("adc", "adc"), ("sample_shift", "sample_shift")]
 
@@ -181,7 +181,10 @@ def run_case(case):
                 res.check(same, "geometry:encodings-differ", f"{kind}/{mode}/n={n}: shank-map and geometry-map encodings of one site table give different geometries",
                           counter="encodings_compared")
             # split shank: restriction of the parent's geometry
-            if kind == "NP2.4" and n == 384 and "shank" in geos:
+            # (round 21: parents saved with a channel subset - 300 / 97 / 12 sites - as well as full ones)
+            if kind == "NP2.4" and "shank" in geos:
+                if n < 384:
+                    res.count("split_of_subset_parents")
                 rec = recs["shank"]
                 for s in np.unique(sites[:, 0]):
                     ns_ = int(np.sum(sites[:, 0] == s))
